@@ -20,13 +20,14 @@ import (
 // replication stream by the master rules), two real bisync links, simulated clients at both sites.
 
 type c13site struct {
-	name   string
-	addr   string
-	srv    *simredis.Server
-	si     *simredis.SourceImpl
-	client *simredis.Session
-	id     string
-	nOps   int
+	name    string
+	addr    string
+	srv     *simredis.Server
+	si      *simredis.SourceImpl
+	client  *simredis.Session
+	client1 *simredis.Session // works in database 1
+	id      string
+	nOps    int
 }
 
 type c13link struct {
@@ -70,6 +71,7 @@ type c13sim struct {
 	applied     map[string]int // op id -> times executed at the peer by a link
 	applTxn     map[string]map[int]bool
 	marker      []byte // a marker value observed in the wild (reused as a client value)
+	multiDB     bool   // clients also write in database 1
 }
 
 func (c *c13sim) setViolation(rule, sig, format string, a ...any) {
@@ -94,6 +96,10 @@ func (c *c13sim) newSite(name, addr, id, flavour string) *c13site {
 	s.srv.Repl.BacklogStart = s.srv.Repl.BacklogBase
 	c.r.Net.Listen(addr, s.srv)
 	s.client = s.srv.LocalSession("client-" + name)
+	// a second application client that works in database 1: its writes make the master switch databases in the
+	// stream, from 7.0 on with the SELECT behind the MULTI of the next transaction
+	s.client1 = s.srv.LocalSession("client1-" + name)
+	s.srv.Dispatch(s.client1, [][]byte{[]byte("select"), []byte("1")})
 	return s
 }
 
@@ -226,12 +232,16 @@ func (c *c13sim) clientOp(s *c13site) {
 	}
 	c.ops = append(c.ops, op)
 	c.r.Logf("client %s: %s txn=%v %v", s.name, op.id, op.txn, op.cmds)
+	cl := s.client
+	if c.multiDB && g.Choose("opdb", 4) == 0 {
+		cl = s.client1
+	}
 	disp := func(args ...string) {
 		bs := make([][]byte, len(args))
 		for i, a := range args {
 			bs[i] = []byte(a)
 		}
-		s.srv.Dispatch(s.client, bs)
+		s.srv.Dispatch(cl, bs)
 	}
 	if op.txn {
 		disp("multi")
@@ -332,6 +342,7 @@ func runC13(r *Run, stratum string) *Violation {
 	if stratum == "rewrite5" || g.Choose("flavour", 4) == 0 {
 		flavour = "5"
 	}
+	c.multiDB = stratum != "snapshot" && g.Choose("multidb", 2) == 0
 	c.a = c.newSite("A", "10.1.0.1:6379", "a"+hexID(g.Bytes("ida", 20))[1:], flavour)
 	c.b = c.newSite("B", "10.2.0.1:6379", "b"+hexID(g.Bytes("idb", 20))[1:], flavour)
 	modes := []string{"sync", "pipeline", "parallel"}
